@@ -189,6 +189,21 @@ def files_scope(res, pid, rng, tier):
                                   "file_bytes": files[rel][:200].decode("utf-8", "replace"),
                                   "outputs": {k: (v or b"<none>")[:200].decode("utf-8", "replace") for k, v in outs.items()}})
                 shutil.rmtree(one + "_o1", ignore_errors=True)
+            # a single, explicitly named input file whose name starts with a dot yields the named output file
+            if want:
+                hid = os.path.join(d, ".rtr1.running-config")
+                open(hid, "wb").write(files[want[0]])
+                with fa.LogCap():
+                    anonymize_files(hid, os.path.join(d, "named.out"), cfg.pwd, cfg.ip, **api_kwargs(cfg))
+                res.evaluations += 1
+                if not os.path.isfile(os.path.join(d, "named.out")):
+                    fails.append({"kind": "a single named input file (name starting with a dot) did not yield the named output file", "cfg": cfg.describe()})
+            # running twice into an output directory that was removed in between (same process)
+            shutil.rmtree(out2, ignore_errors=True)
+            run_dir_api(cfg, ind, out2)
+            if sorted(read_tree(out2)) != sorted(k for k in got if not k.startswith("pre-existing")):
+                fails.append({"kind": "a second run into a re-created output directory does not write all files", "cfg": cfg.describe(),
+                              "written": sorted(read_tree(out2))})
             # ---- failures: undecodable bytes (early and late), output path occupied by a directory
             bad_files = dict(files)
             pw_lines = "".join(render(h) for h in gen_history(rng, 6, classes=["text"]))
@@ -196,11 +211,21 @@ def files_scope(res, pid, rng, tier):
             bad_files[os.path.join(rng.choice(DIRS), "bad-early.cfg")] = b"\xff\xff" + pw_lines.encode()
             occupied = want[0] if want else None
             ind2, outb = os.path.join(d, "in2"), os.path.join(d, "outb")
+            blocked = os.path.join("blockeddir", "inner.cfg")
+            bad_files[blocked] = pw_lines.encode()          # its output directory is occupied by a regular file
             write_tree(ind2, bad_files, empty_dirs)
             if occupied:
                 os.makedirs(os.path.join(outb, occupied))
-            logs = run_dir_api(cfg, ind2, outb)
+            os.makedirs(outb, exist_ok=True)
+            open(os.path.join(outb, "blockeddir"), "w").write("a file where a directory is needed\n")
+            try:
+                logs = run_dir_api(cfg, ind2, outb)
+            except Exception as e:  # noqa
+                logs = []
+                fails.append({"kind": "a file that cannot be processed aborted the whole run", "cfg": cfg.describe(), "exc": repr(e)[:200],
+                              "failing_files": ["0bad-late.cfg", "bad-early.cfg", occupied, blocked]})
             gotb = read_tree(outb)
+            gotb.pop("blockeddir", None)
             # reference: the same tree without the files that fail
             ind3, outc = os.path.join(d, "in3"), os.path.join(d, "outc")
             ref_files = {k: v for k, v in files.items() if k != occupied}
@@ -209,7 +234,7 @@ def files_scope(res, pid, rng, tier):
             gotc = read_tree(outc)
             res.evaluations += len(bad_files)
             errs = [m for lv, m in logs if lv == "ERROR"]
-            for name in ["0bad-late.cfg", "bad-early.cfg"] + ([occupied] if occupied else []):
+            for name in (["0bad-late.cfg", "bad-early.cfg", blocked] + ([occupied] if occupied else [])) if logs else []:
                 if not any(os.path.basename(name) in m for m in errs):
                     fails.append({"kind": "a file that cannot be processed is not reported", "cfg": cfg.describe(), "file": name, "error_log": errs[:5]})
             same_order = [k for k in gotc]
